@@ -34,8 +34,11 @@ import (
 	"testing/synctest"
 	"time"
 
+	"github.com/btcsuite/btcd/address/v2"
 	"github.com/btcsuite/btcd/btcec/v2"
 	"github.com/btcsuite/btcd/btcec/v2/ecdsa"
+	"github.com/btcsuite/btcd/btcec/v2/schnorr"
+	"github.com/btcsuite/btcd/btcec/v2/schnorr/musig2"
 	"github.com/btcsuite/btcd/chaincfg/v2"
 	"github.com/btcsuite/btcd/chainhash/v2"
 	"github.com/btcsuite/btcd/wire/v2"
@@ -132,6 +135,138 @@ func c20P2WSH2of2(k1, k2 [33]byte) []byte {
 	return append([]byte{0x00, 0x20}, h[:]...)
 }
 
+// c20WSH wraps a witness script into its P2WSH output script.
+func c20WSH(ws []byte) []byte {
+	h := sha256.Sum256(ws)
+	return append([]byte{0x00, 0x20}, h[:]...)
+}
+
+// c20Multisig is the bare "m <a> <b> 2 OP_CHECKMULTISIG" script, keys in the order given.
+func c20Multisig(m byte, a, b [33]byte) []byte {
+	ws := []byte{0x50 + m, 0x21}
+	ws = append(ws, a[:]...)
+	ws = append(ws, 0x21)
+	ws = append(ws, b[:]...)
+	return append(ws, 0x52, 0xae)
+}
+
+// c20P2TR is the segwit v1 output script of an output key.
+func c20P2TR(outputKey *btcec.PublicKey) []byte {
+	return append([]byte{0x51, 0x20}, schnorr.SerializePubKey(outputKey)...)
+}
+
+// c20P2TRMuSig2 is the funding output script of a simple taproot channel (simple
+// taproot channels proposal, "Funding Output"): P2TR whose output key is the
+// MuSig2 (BIP 327) aggregate of the two funding keys, sorted, with the BIP 86 tweak
+// (key-path spend only). Computed with btcd's musig2 package directly (lnd's script
+// helpers are not used); bip86 == false leaves the tweak out.
+func c20P2TRMuSig2(k1, k2 [33]byte, bip86 bool) []byte {
+	p1, err1 := btcec.ParsePubKey(k1[:])
+	p2, err2 := btcec.ParsePubKey(k2[:])
+	if err1 != nil || err2 != nil {
+		return nil // not a 2-of-2 of two keys: matches no output
+	}
+	var opts []musig2.KeyAggOption
+	if bip86 {
+		opts = append(opts, musig2.WithBIP86KeyTweak())
+	}
+	agg, _, _, err := musig2.AggregateKeys([]*btcec.PublicKey{p1, p2}, true, opts...)
+	if err != nil {
+		return nil
+	}
+	return c20P2TR(agg.FinalKey)
+}
+
+// c20KindOut is one output of the "kinds" transaction: every funding-output form a
+// channel_announcement of either channel kind can point at.
+type c20KindOut struct {
+	name   string
+	script func(k1, k2, other [33]byte) []byte
+	value  int64
+	spent  bool
+}
+
+// c20KindOuts: the correct 2-of-2 of (bitcoin_key_1, bitcoin_key_2) in the form of
+// each channel kind, and everything "near" it: single-key variants (one key twice,
+// one key alone), 1-of-2, the right keys in the wrong form (tweak left out, keys
+// unsorted, bare multisig), a foreign key, spent, tiny amount. (The legacy-form
+// correct / spent / tiny outputs are the outputs 0, 1, 3 of the first transaction.)
+var c20KindOuts = []c20KindOut{
+	{name: "tr2of2", script: func(a, b, _ [33]byte) []byte { return c20P2TRMuSig2(a, b, true) }},
+	{name: "tr-k1k1", script: func(a, _, _ [33]byte) []byte { return c20P2TRMuSig2(a, a, true) }},
+	{name: "tr-k2k2", script: func(_, b, _ [33]byte) []byte { return c20P2TRMuSig2(b, b, true) }},
+	{name: "tr-k1-raw", script: func(a, _, _ [33]byte) []byte { p, _ := btcec.ParsePubKey(a[:]); return c20P2TR(p) }},
+	{name: "tr-k2-bip86", script: func(_, b, _ [33]byte) []byte {
+		// BIP 86 single-key output: Q = P + H_TapTweak(P)G, P with even y
+		p, _ := schnorr.ParsePubKey(b[1:])
+		t := chainhash.TaggedHash(chainhash.TagTapTweak, schnorr.SerializePubKey(p))
+		var ts btcec.ModNScalar
+		ts.SetByteSlice(t[:])
+		var pj, tg, q btcec.JacobianPoint
+		p.AsJacobian(&pj)
+		btcec.ScalarBaseMultNonConst(&ts, &tg)
+		btcec.AddNonConst(&pj, &tg, &q)
+		q.ToAffine()
+		return c20P2TR(btcec.NewPublicKey(&q.X, &q.Y))
+	}},
+	{name: "tr2of2-untweaked", script: func(a, b, _ [33]byte) []byte { return c20P2TRMuSig2(a, b, false) }},
+	{name: "tr2of2-spent", script: func(a, b, _ [33]byte) []byte { return c20P2TRMuSig2(a, b, true) }, spent: true},
+	{name: "tr2of2-tiny", script: func(a, b, _ [33]byte) []byte { return c20P2TRMuSig2(a, b, true) }, value: c20TinyCapacity},
+	{name: "tr-k1-other", script: func(a, _, o [33]byte) []byte { return c20P2TRMuSig2(a, o, true) }},
+	{name: "wsh-k1k1", script: func(a, _, _ [33]byte) []byte { return c20WSH(c20Multisig(2, a, a)) }},
+	{name: "wsh-k2k2", script: func(_, b, _ [33]byte) []byte { return c20WSH(c20Multisig(2, b, b)) }},
+	{name: "wpkh-k1", script: func(a, _, _ [33]byte) []byte { return append([]byte{0x00, 0x14}, address.Hash160(a[:])...) }},
+	{name: "wsh-1of2", script: func(a, b, _ [33]byte) []byte {
+		if bytes.Compare(a[:], b[:]) > 0 {
+			a, b = b, a
+		}
+		return c20WSH(c20Multisig(1, a, b))
+	}},
+	{name: "wsh-2of2-unsorted", script: func(a, b, _ [33]byte) []byte {
+		if bytes.Compare(a[:], b[:]) < 0 {
+			a, b = b, a
+		}
+		return c20WSH(c20Multisig(2, a, b))
+	}},
+	{name: "bare-2of2", script: func(a, b, _ [33]byte) []byte {
+		if bytes.Compare(a[:], b[:]) > 0 {
+			a, b = b, a
+		}
+		return c20Multisig(2, a, b)
+	}},
+}
+
+// c20KindTxIndex: position of the "kinds" transaction in block c20Height0.
+const c20KindTxIndex = 2
+
+// c20KindScid returns the scid of the funding-output variant `name`: one of
+// c20KindOuts, or "wsh2of2" / "wsh2of2-spent" / "wsh2of2-tiny" (first transaction).
+func c20KindScid(name string) lnwire.ShortChannelID {
+	switch name {
+	case "wsh2of2":
+		return c20ScidGood
+	case "wsh2of2-spent":
+		return c20ScidSpent
+	case "wsh2of2-tiny":
+		return c20ScidTiny
+	}
+	for i, o := range c20KindOuts {
+		if o.name == name {
+			return lnwire.ShortChannelID{BlockHeight: c20Height0, TxIndex: c20KindTxIndex, TxPosition: uint16(i)}
+		}
+	}
+	panic("c20: unknown funding output variant " + name)
+}
+
+// c20KindOutNames: every funding-output variant of the channel-kind family.
+func c20KindOutNames() []string {
+	names := []string{"wsh2of2", "wsh2of2-spent", "wsh2of2-tiny"}
+	for _, o := range c20KindOuts {
+		names = append(names, o.name)
+	}
+	return names
+}
+
 // scids of the universe
 var (
 	c20ScidGood   = lnwire.ShortChannelID{BlockHeight: c20Height0, TxIndex: 1, TxPosition: 0}
@@ -177,8 +312,27 @@ func c20NewUniverse() *c20Universe {
 	fund.AddTxOut(&wire.TxOut{Value: c20Capacity, PkScript: good})     // 1: same script, already spent
 	fund.AddTxOut(&wire.TxOut{Value: c20Capacity, PkScript: other})    // 2: pays to other keys
 	fund.AddTxOut(&wire.TxOut{Value: c20TinyCapacity, PkScript: good}) // 3: right script, tiny amount
-	u.blocks[c20Height0] = &wire.MsgBlock{Transactions: []*wire.MsgTx{dummy(1), fund}}
+	// the "kinds" transaction: one output per funding-output form (c20KindOuts)
+	kinds := wire.NewMsgTx(2)
+	kinds.AddTxIn(&wire.TxIn{PreviousOutPoint: wire.OutPoint{Index: 79}})
+	for _, o := range c20KindOuts {
+		v := o.value
+		if v == 0 {
+			v = c20Capacity
+		}
+		sc := o.script(c20Pub(c20Btc1), c20Pub(c20Btc2), c20Pub(c20EvilBtc))
+		if len(sc) == 0 {
+			panic("c20: no script for funding output variant " + o.name)
+		}
+		kinds.AddTxOut(&wire.TxOut{Value: v, PkScript: sc})
+	}
+	u.blocks[c20Height0] = &wire.MsgBlock{Transactions: []*wire.MsgTx{dummy(1), fund, kinds}}
 	u.spent[wire.OutPoint{Hash: fund.TxHash(), Index: 1}] = true
+	for i, o := range c20KindOuts {
+		if o.spent {
+			u.spent[wire.OutPoint{Hash: kinds.TxHash(), Index: uint32(i)}] = true
+		}
+	}
 
 	u.blocks[c20Height0+1] = &wire.MsgBlock{Transactions: []*wire.MsgTx{dummy(2)}}
 	u.blocks[c20Height0+2] = &wire.MsgBlock{Transactions: []*wire.MsgTx{dummy(3)}}
@@ -499,6 +653,9 @@ type c20Inner struct {
 	closers  []func() // stop the running stack and close the database handle (restart + teardown)
 	rmDir    func()   // remove the scratch directory (teardown only)
 	opens    int      // how many times the stack was started on this database
+	// watch: scids outside c20UniverseScids that a delivered message referred to; the
+	// zombie index is read back for them as well
+	watch []lnwire.ShortChannelID
 
 	bmu   sync.Mutex
 	bcast [][]byte
@@ -835,6 +992,9 @@ func (in *c20Inner) step(req c20Req) *c20Obs {
 			msgs = []lnwire.Message{req.msg}
 		}
 		var futs []actor.Future[error]
+		for _, m := range msgs {
+			in.watchScid(m)
+		}
 		for i, m := range msgs {
 			pk := c20PeerKey(req.peer + i)
 			if in.cfg.SamePeer {
@@ -900,14 +1060,33 @@ func c20SigPrefix(der []byte) []byte {
 	return s.RawBytes()[:6]
 }
 
+// c20FeatureBits lists the bits set in an encoded feature vector (BOLT 9: bit 0 is
+// the least significant bit of the last byte).
+func c20FeatureBits(enc []byte) []int {
+	bits := []int{}
+	for i := 0; i < len(enc)*8; i++ {
+		if enc[len(enc)-1-i/8]&(1<<(i%8)) != 0 {
+			bits = append(bits, i)
+		}
+	}
+	return bits
+}
+
 func c20ChanLine(info *models.ChannelEdgeInfo, p1, p2 *models.ChannelEdgePolicy) string {
+	var feat []byte
+	if info.Features != nil && info.Features.RawFeatureVector != nil {
+		var fb bytes.Buffer
+		// (EncodeBase256: the bytes only, no length prefix)
+		_ = info.Features.RawFeatureVector.EncodeBase256(&fb)
+		feat = fb.Bytes()
+	}
 	var b1, b2 []byte
 	info.BitcoinKey1Bytes.WhenSome(func(v route.Vertex) { b1 = v[:] })
 	info.BitcoinKey2Bytes.WhenSome(func(v route.Vertex) { b2 = v[:] })
-	return fmt.Sprintf("ch %d n1=%x n2=%x b1=%x b2=%x cap=%d op=%x:%d proof=%v extra=%x p1=%s p2=%s",
+	return fmt.Sprintf("ch %d n1=%x n2=%x b1=%x b2=%x cap=%d op=%x:%d proof=%v feat=%v extra=%x p1=%s p2=%s",
 		info.ChannelID, info.NodeKey1Bytes[:6], info.NodeKey2Bytes[:6], c20Short(b1), c20Short(b2),
 		int64(info.Capacity), info.ChannelPoint.Hash[:4], info.ChannelPoint.Index, info.AuthProof != nil,
-		info.ExtraOpaqueData, c20PolicyLine(p1), c20PolicyLine(p2))
+		c20FeatureBits(feat), info.ExtraOpaqueData, c20PolicyLine(p1), c20PolicyLine(p2))
 }
 
 func c20NodeLine(n *models.Node) string {
@@ -929,6 +1108,31 @@ func c20NodeLine(n *models.Node) string {
 }
 
 var c20UniverseScids = []lnwire.ShortChannelID{c20ScidGood, c20ScidSpent, c20ScidScript, c20ScidTiny, c20ScidNoOut, c20ScidNoTx, c20ScidFuture}
+
+// watchScid adds the scid a message refers to to the scids whose zombie-index entry
+// is read back after every step.
+func (in *c20Inner) watchScid(m lnwire.Message) {
+	var s lnwire.ShortChannelID
+	switch d := m.(type) {
+	case *lnwire.ChannelAnnouncement1:
+		s = d.ShortChannelID
+	case *lnwire.ChannelUpdate1:
+		s = d.ShortChannelID
+	default:
+		return
+	}
+	for _, k := range c20UniverseScids {
+		if k == s {
+			return
+		}
+	}
+	for _, k := range in.watch {
+		if k == s {
+			return
+		}
+	}
+	in.watch = append(in.watch, s)
+}
 
 func (in *c20Inner) observe(lazy bool) (lines []string, zombies []uint64, zombieKeys []string, cacheDiff string) {
 	ctx := context.Background()
@@ -1050,7 +1254,7 @@ func (in *c20Inner) observe(lazy bool) (lines []string, zombies []uint64, zombie
 		}
 	}
 
-	for _, s := range c20UniverseScids {
+	for _, s := range append(append([]lnwire.ShortChannelID{}, c20UniverseScids...), in.watch...) {
 		z, k1, k2, zerr := in.v1.IsZombieEdge(ctx, s.ToUint64())
 		if zerr != nil {
 			diffs = append(diffs, fmt.Sprintf("IsZombieEdge(%d): %v", s.ToUint64(), zerr))
